@@ -179,7 +179,9 @@ impl Sim {
         if let Some(r) = self.committed_txs.get(self.rng.gen_range(0..self.committed_txs.len().max(1))) {
             let mut t = ctx.txs.clone();
             t.push(r.bytes.clone());
-            mutants.push(with("append_replayed_committed_tx", Some(true), t, r.id[..12].to_string()));
+            // a committed transaction that failed non-fatally never consumed its nonce: replaying it is not a must-reject defect
+            let must = if r.intent.contains("relay_fails_nonfatal") { None } else { Some(true) };
+            mutants.push(with("append_replayed_committed_tx", must, t, format!("{} intent={}", &r.id[..12], r.intent)));
         }
         // a validly signed transfer of more than the signer owns (fails fatally at execution)
         {
